@@ -22,7 +22,7 @@ Definition comp_eqb (a b : comp) : bool :=
 Definition step_comp (s : astep) : option comp :=
   match s with
   | SFlags => Some CFlags
-  | SOpt _ f _ | SVec _ f _ | SLocals _ f _ _ => Some (CSlot f)
+  | SOpt _ f _ | SVec _ f _ | SLocals _ f _ _ _ => Some (CSlot f)
   | SUnknown _ _ _ => Some CUnknown
   | SCode _ _ _ => Some CCode
   | SRecord _ _ _ => Some CRcs
@@ -176,7 +176,7 @@ Qed.
 Lemma act_full_arm ct except name act : ctx_ok ct except = true -> act_full ct name = Some act ->
   In (mkArm (PName name) GAlways act) (t_arms ct) \/ (act = AReadLen true /\ gov ct name = Some fUnknown).
 Proof.
-  intros Hct H. apply andb_prop in Hct as [Harms _].
+  intros Hct H. apply andb_prop in Hct as [Harms _]. apply andb_prop in Harms as [Harms _].
   exact (full_dispatch_arm (t_interests ct) _ _ [] (le_n _) Harms name act H).
 Qed.
 
@@ -213,6 +213,22 @@ Definition stored_names_ok (ct : ctx_table) (slot : str) (P : str -> bool) : boo
                     | _, _, _ => true
                     end) (t_arms ct).
 
+Fixpoint strs_eqb (a b : list str) : bool :=
+  match a, b with
+  | [], [] => true
+  | x :: a', y :: b' => str_eqb x y && strs_eqb a' b'
+  | _, _ => false
+  end.
+Lemma strs_eqb_eq a b : strs_eqb a b = true -> a = b.
+Proof.
+  revert b. induction a as [|x a IH]; intros [|y b]; cbn [strs_eqb]; try discriminate; [reflexivity|].
+  intros H. apply andb_prop in H as [H1 H2]. apply str_eqb_eq in H1. rewrite H1, (IH b H2). reflexivity.
+Qed.
+
+(* a table handed over after the loop: the builder keeps it in a field that one statement of accept() replays with the
+   same visit call; `if let Some`: the reader hands it over whenever it is filled, and all attributes collected into it
+   are governed by the statement's flag; Code::accept's filter: the reader's guard and the statement's guard name the
+   same interests (whole), and every attribute collected into the table is governed by one of them *)
 Definition deferred_entry_ok (ct : ctx_table) (ac : accept_ctx) (AT : accept_tables) (sv : str * str) : bool :=
   ostr_eqb (assoc (fst sv) (ac_deferred ac)) (snd sv) && ostr_eqb (rassoc (snd sv) (ac_deferred ac)) (fst sv)
   && mem (fst sv) (t_deferred ct)
@@ -224,13 +240,15 @@ Definition deferred_entry_ok (ct : ctx_table) (ac : accept_ctx) (AT : accept_tab
              | Some (SOpt g f V') =>
                  str_eqb (b_field row) f && str_eqb (snd sv) V'
                  && stored_names_ok ct (fst sv) (fun x => ostr_eqb (gov ct x) g)
-             | Some (SLocals flags f V' kinds) =>
+                 && match whole_of (fst sv) (t_whole ct) with None => true | Some _ => false end
+             | Some (SLocals flags f V' kinds whole) =>
                  str_eqb (b_field row) f && str_eqb (snd sv) V'
                  && stored_names_ok ct (fst sv)
                       (fun x => match gov ct x with
-                                | Some g => ostr_eqb (kind_flag AT kinds x) g && mem g flags
+                                | Some g => ostr_eqb (kind_flag AT kinds x) g && mem g flags && mem g whole
                                 | None => false
                                 end)
+                 && match whole_of (fst sv) (t_whole ct) with Some w => strs_eqb w whole | None => false end
              | _ => false
              end
          | _ => false
@@ -264,7 +282,7 @@ Definition step_justified (ct : ctx_table) (ac : accept_ctx) (s : astep) : bool 
   match s with
   | SOpt g f V | SVec g f V => flag_ok g && row_has V f && (is_some (rassoc V (ac_visits ac)) || is_some (rassoc V (ac_deferred ac)))
   | SCode g f V | SRecord g f V => flag_ok g && row_has V f && is_some (rassoc V (ac_visits ac))
-  | SLocals flags f V _ => negb (is_nil flags) && forallb flag_ok flags && row_has V f && is_some (rassoc V (ac_deferred ac))
+  | SLocals flags f V _ whole => forallb flag_ok whole && negb (is_nil flags) && forallb flag_ok flags && row_has V f && is_some (rassoc V (ac_deferred ac))
   | SUnknown g f V => flag_ok g && row_has V f && str_eqb V (ac_unknown_visit ac)
   | SMembers g _ _ _ | SInsns g => flag_ok g
   | _ => true
